@@ -138,6 +138,9 @@ def _pin_worker():
 def _pool_init(fn_module, fn_name, initargs, pin=True):
     global _WORKER_FN
     import importlib
+    if os.environ.get("VERIF_FAULTHANDLER"):
+        import faulthandler
+        faulthandler.dump_traceback_later(int(os.environ["VERIF_FAULTHANDLER"]), repeat=True)
     if pin:
         _pin_worker()
         try:
@@ -167,6 +170,31 @@ def ncpu():
     return max(1, min(16, int(os.environ.get("VERIF_JOBS", n))))
 
 
+def _next_with_timeout(it, limit):
+    """next() of an executor.map iterator, raising concurrent.futures.TimeoutError if it takes too long"""
+    import threading
+    import concurrent.futures as cf
+    box = {}
+
+    def run():
+        try:
+            box["v"] = next(it)
+        except StopIteration:
+            box["stop"] = True
+        except BaseException as e:  # propagate worker exceptions
+            box["e"] = e
+    t = threading.Thread(target=run, daemon=True)
+    t.start()
+    t.join(limit)
+    if t.is_alive():
+        raise cf.TimeoutError()
+    if "e" in box:
+        raise box["e"]
+    if "stop" in box:
+        raise StopIteration
+    return box["v"]
+
+
 def pmap(fn_module, fn_name, items, initargs=(), jobs=None, chunksize=1):
     """map ``module.fn`` over items in a process pool (fork, long lived
     workers).  ``module.fn_init(*initargs)`` runs once per worker if it
@@ -182,7 +210,24 @@ def pmap(fn_module, fn_name, items, initargs=(), jobs=None, chunksize=1):
     with cf.ProcessPoolExecutor(min(jobs, len(items)), mp_context=ctx, initializer=_pool_init,
                                 initargs=(fn_module, fn_name, initargs)) as pool:
         try:
-            return list(pool.map(_pool_call, items, chunksize=chunksize))
+            # per-result watchdog: a lost work item must end the check with a harness error, never hang it
+            limit = float(os.environ.get("VERIF_ITEM_TIMEOUT", "1500"))
+            out = []
+            it = pool.map(_pool_call, items, chunksize=chunksize, timeout=None)
+            futs = None
+            try:
+                while True:
+                    t0 = time.time()
+                    out.append(_next_with_timeout(it, limit))
+            except StopIteration:
+                return out
+        except cf.TimeoutError:
+            for p in list(getattr(pool, "_processes", {}).values()):
+                try:
+                    p.kill()
+                except Exception:
+                    pass
+            raise RuntimeError("HARNESS-ERROR: no result from the worker pool within %.0f s while running %s.%s" % (limit, fn_module, fn_name))
         except cf.process.BrokenProcessPool:
             raise RuntimeError("HARNESS-ERROR: a worker process died (killed / crashed interpreter) while running %s.%s" % (fn_module, fn_name))
 
